@@ -66,6 +66,9 @@ and parse_cmd toks =
   | ["isconn"] -> KIsConn
   | ["next"; h] -> KNext (n_of_string h)
   | ["back"; hx] -> KBack (bytes_of_hex (if hx = "-" then "" else hx))
+  (* a frame that arrives in two halves <ms> apart: the model delivers frames whole (Props/C09.v
+     C09_receive_future_persistent: the receive future lives across the iterations of read_task's select loop) *)
+  | ["backsplit"; hx; _ms] -> KBack (bytes_of_hex hx)
   | ["failsend"] -> KFailSend
   | ["recvfault"] -> KRecvFault
   | ["peerclose"] -> KPeerClose
